@@ -416,6 +416,50 @@ func c09Check(ctx *vfCtx, c c09Case) {
 		if ok1 && ok2 && vFull != vSel {
 			ctx.Fail("C09/add-auth-events-insufficient", "event built with AddAuthEvents is %s against the full state but %s against exactly its auth_events %v; event=%s", vFull, vSel, built.AuthEventIDs(), built.JSON())
 		}
+		// a builder that has been through AddAuthEvents before (the event was prepared against an earlier
+		// state, then prepared again): the selection is made from the provider given NOW
+		{
+			var earlier []PDU
+			for i, e := range full {
+				if i%2 == 0 || (e.Type() == spec.MRoomCreate && e.StateKeyEquals("")) {
+					earlier = append(earlier, e) // an earlier state: every other event is not there yet
+				}
+			}
+			eb4 := impl.NewEventBuilderFromProtoEvent(pe)
+			var built4 PDU
+			var err4 error
+			if vfCatch(ctx, "C09/build-twice", func() {
+				p1, _ := NewAuthEvents(earlier)
+				if err4 = eb4.AddAuthEvents(p1); err4 != nil {
+					return
+				}
+				p2, _ := NewAuthEvents(full)
+				if err4 = eb4.AddAuthEvents(p2); err4 != nil {
+					return
+				}
+				_, priv := vfKeyFor("origin:x")
+				built4, err4 = eb4.Build(time.UnixMilli(5000), "a.example", "ed25519:1", priv)
+			}) {
+				return
+			}
+			if err4 == nil && built4 != nil {
+				ctx.Class("built-with-AddAuthEvents/second-time")
+				got4 := map[string]bool{}
+				for _, id := range built4.AuthEventIDs() {
+					got4[id] = true
+				}
+				if len(got4) != len(refs) {
+					ctx.Fail("C09/add-auth-events-insufficient/builder-used-before", "a builder prepared against an earlier state and then against the current one names %v; a fresh builder names %v", built4.AuthEventIDs(), built.AuthEventIDs())
+					return
+				}
+				for id := range refs {
+					if !got4[id] {
+						ctx.Fail("C09/add-auth-events-insufficient/builder-used-before", "a builder prepared against an earlier state and then against the current one names %v; a fresh builder names %v", built4.AuthEventIDs(), built.AuthEventIDs())
+						return
+					}
+				}
+			}
+		}
 		// the same selection from a provider one of whose lookups fails (a database-backed provider):
 		// either the failure is reported or the selection is the complete one
 		for failAt := 1; failAt <= 6; failAt++ {
